@@ -1,6 +1,7 @@
 package swagtool
 
 import (
+	"bytes"
 	"encoding/json"
 	"fmt"
 	"os"
@@ -75,7 +76,11 @@ func FileExists(filename string) bool {
 
 func ForceOrderedJSON(input []byte) ([]byte, error) {
 	var orderedData any
-	if err := json.Unmarshal(input, &orderedData); err != nil {
+	// Numbers are kept as json.Number: going through float64 would round integers beyond 2^53
+	// (int64/uint64 enum constants and bounds) to the nearest representable float
+	decoder := json.NewDecoder(bytes.NewReader(input))
+	decoder.UseNumber()
+	if err := decoder.Decode(&orderedData); err != nil {
 		return nil, fmt.Errorf("error unmarshaling JSON for ordering: %v", err)
 	}
 
